@@ -275,12 +275,30 @@ func ruleToken(c *Ctx) {
 				n++
 				key := fmt.Sprintf("%s: split #%d is applied to the pointer as given and drops exactly the leading element", b.canonFname(fn), n)
 				bad := ""
-				if _, isParam := call.Call.Args[0].(*ssa.Parameter); !isParam {
+				// strings.Cut(pointer, "/") has already dropped the text in front of the first
+				// separator: what follows it is split as it is, and nothing more is dropped
+				afterCut := false
+				if ex, isEx := call.Call.Args[0].(*ssa.Extract); isEx && ex.Index == 1 {
+					if cc, isCall := ex.Tuple.(*ssa.Call); isCall && stdName(cc.Call.StaticCallee()) == "strings.Cut" {
+						if _, isParam := cc.Call.Args[0].(*ssa.Parameter); isParam {
+							if sep, ok := strConst(cc.Call.Args[1]); ok && sep == "/" {
+								afterCut = true
+							}
+						}
+					}
+				}
+				if _, isParam := call.Call.Args[0].(*ssa.Parameter); !isParam && !afterCut {
 					bad = "the text that is split is " + describeValue(call.Call.Args[0]) + ", not the pointer parameter itself: leading or repeated separators are reference tokens (empty member names) and must survive"
 				}
 				for _, r := range *call.Referrers() {
 					switch x := r.(type) {
 					case *ssa.Slice:
+						if afterCut {
+							if lo, ok := intConst(x.Low); x.Low != nil && (!ok || lo != 0) {
+								bad = "the token list is taken from the split of the text behind the first separator at " + b.posOf(x) + " with a further element dropped"
+							}
+							continue
+						}
 						if lo, ok := intConst(x.Low); x.Low == nil || !ok || lo != 1 {
 							bad = "the token list is taken from the split result at " + b.posOf(x) + " without dropping exactly the first element"
 						}
